@@ -22,7 +22,7 @@ from .. import callgraph, cir, ctypeinfo, engine, paths, xmacro
 from ..cfront import AnalysisError
 
 STACK_ALLOCATOR = {"pstack", "pbase", "maxuse_stack", "maxuse_arena"}
-STACK_FUNCS = {"stackalloc", "stackallocinternal", "mj_markStack", "mj_freeStack", "markstackinternal", "freestackinternal"}
+ALLOCATOR_TU = "src/engine/engine_memory.c"
 
 
 def run(res, tier):
@@ -63,7 +63,9 @@ def run(res, tier):
                     problems.append(("static", line, f"writes static-storage object `{var}` that is not thread-local"))
             for e in f["events"]:
                 if e["struct"] == "mjData" and e["kind"] == "assign" and e["field"] in scalars:
-                    if e["field"] in STACK_ALLOCATOR and k[1] in STACK_FUNCS:
+                    if e["field"] in STACK_ALLOCATOR and f["file"] == ALLOCATOR_TU:
+                        # owned by the allocator module; that all of its plain stores to these scalars happen with
+                        # d->threadlock clear is decided by R-THREADLOCK below (module-wide clause)
                         continue
                     problems.append(("scalar", e["line"], f"writes scalar d->{e['field']} (shared, unsynchronised)"))
             if problems:
